@@ -4,6 +4,7 @@
    forms are tied by the correspondence. *)
 From Coq Require Import ZArith List Bool.
 Import ListNotations.
+Require Import SV.Life.Multicall SV.Life.MulticallProofs.
 Require Import SV.Life.Model SV.Life.Shutdown SV.Life.RpcLemmas SV.Life.InvProofs SV.Life.PolicyRun SV.Life.StopRun SV.Life.RpcRun.
 Open Scope Z_scope.
 
@@ -112,3 +113,38 @@ Theorem c13_stop_true_means_stopped :
          InvProofs.K w' /\ sts w' i = STOPPED /\ pid (procs w' i) = 0.
 Proof. exact stop_true_means_stopped. Qed.
 Print Assumptions c13_stop_true_means_stopped.
+
+(* ---- system.multicall (supervisor/xmlrpc.py): a multicall is a sequence of requests ----
+   Model: SV.Life.Multicall (multi(), the closure polled by the HTTP channel).  For every list of calls - each
+   answering at once or after any number of polls, with a value or a fault - and every number of polls: *)
+
+(* what has happened so far is a prefix of the one-call-after-the-other history *)
+Theorem c13_multicall_sequential :
+  forall calls n, exists rest, mtrace (multicall calls n) ++ rest = seq_trace (number 0 calls).
+Proof. exact multicall_sequential. Qed.
+Print Assumptions c13_multicall_sequential.
+
+(* a call is invoked only when the call before it has answered: never two requests of one multicall in progress *)
+Theorem c13_multicall_one_at_a_time :
+  forall calls n, invoked_before_done None (mtrace (multicall calls n)) = true.
+Proof. exact multicall_one_at_a_time. Qed.
+Print Assumptions c13_multicall_one_at_a_time.
+
+(* the envelope's answer has one entry per call, in call order, each the call's own answer, and by then every call
+   has been invoked and has answered, in order *)
+Theorem c13_multicall_answers :
+  forall calls n rs, answer (multicall calls n) = Some rs ->
+    rs = map final calls /\ mtrace (multicall calls n) = seq_trace (number 0 calls).
+Proof. exact multicall_answers. Qed.
+Print Assumptions c13_multicall_answers.
+
+(* it answers after exactly as many polls as its deferred calls need: not before, and then always *)
+Theorem c13_multicall_terminates :
+  forall calls n, (total_polls calls <= n)%nat -> answer (multicall calls n) = Some (map final calls).
+Proof. exact multicall_terminates. Qed.
+Print Assumptions c13_multicall_terminates.
+
+Theorem c13_multicall_not_before :
+  forall calls n, (n < total_polls calls)%nat -> answer (multicall calls n) = None.
+Proof. exact multicall_not_before. Qed.
+Print Assumptions c13_multicall_not_before.
